@@ -322,7 +322,7 @@ def applied_shard(rule, sign, dt):
     return tally
 
 
-def multicell_shard(rule, sign, T):
+def multicell_shard(rule, sign, T, gamma=0.5):
     """one trainer, TWO cells with different histories, per-sample signal TENSOR (batch of one) and scale != 1:
     every cell's update must equal its own single-cell formula (no carry-over between cells)"""
     tally = Tally()
@@ -331,7 +331,7 @@ def multicell_shard(rule, sign, T):
     hs = all_histories(T, 2)
     param = "delay" if rule in DELAY_RULES else "weight"
     three = rule in ("da-mstdp", "da-mstdpd")
-    gamma = 0.5
+    # gamma < 0: the scale is documented as "its absolute value will be used" for per-sample reward tensors
     for h in hs:
         hists = [h, [tuple(1 - v for v in letter) for letter in h][::-1]]
         case = {"rule": rule, "sign": sign, "part": "two cells on one trainer", "histories": hists, "signal": "tensor" if three else None, "scale": gamma}
@@ -359,8 +359,12 @@ def multicell_shard(rule, sign, T):
             for i, L_ in enumerate(layers):
                 pre_syn = torch.stack([spec.pre_syn([hists[i][u][:1]]) for u in range(t + 1)], 0)
                 post = torch.stack([spec.post_ref([hists[i][u][1:]]) for u in range(t + 1)], 0)
-                ref = reference(rule, sign, dt, pre_syn, post, Ks[i], sig, gamma)
+                ref = reference(rule, sign, dt, pre_syn, post, Ks[i], sig, abs(gamma))
                 acc = getattr(L_.connection.updater, param)
+                for nm, part in (("pos", acc.pos), ("neg", acc.neg)):
+                    if part is not None and bool((part < -1e-9).any()):
+                        tally.violation(f"multicell:negative-part:{rule}:{nm}", {**case, "step": t, "cell": i}, f"the {nm} part handed to the updater has negative entries")
+                        ok = False
                 z = torch.zeros(spec.wshape, dtype=F64)
                 got = (z if acc.pos is None else acc.pos.to(F64)) - (z if acc.neg is None else acc.neg.to(F64))
                 exp = ref.sum(0)[0]
@@ -394,6 +398,8 @@ def run(rep):
             jobs.append((applied_shard, (rule, sign, 1.0)))
         for sign in (tuple(SIGNS) if rule in ("da-mstdp", "da-mstdpd") else ("hebbian", "dep")):
             jobs.append((multicell_shard, (rule, sign, 3 if quick else 4)))
+        if rule in ("da-mstdp", "da-mstdpd"):
+            jobs.append((multicell_shard, (rule, "hebbian", 3, -0.5)))
     # hyper-parameters given as per-cell overrides of a trainer constructed with decoy defaults
     for rule in ("da-stdp", "da-stdpd", "da-mstdp", "da-mstdpd", "da-kernel", "da-kerneld"):
         for sign in list(SIGNS) + (list(SIGNS_ZERO) if rule in ("da-stdp", "da-stdpd", "da-mstdp", "da-mstdpd") else []):
